@@ -251,6 +251,15 @@ def c_printf(fmt, args):
 _ENUM_CACHE = {}
 
 
+def _f32(x):
+    """round a python float to IEEE single precision"""
+    import struct
+    try:
+        return struct.unpack('f', struct.pack('f', x))[0]
+    except OverflowError:
+        return float('inf') if x > 0 else float('-inf')
+
+
 class PEval:
     def __init__(self, units, max_depth=6, max_iter=4096):
         self.ordering = {}
@@ -285,9 +294,11 @@ class PEval:
 
     # ------------------------------------------------------------------ helpers
     def record_kind(self, t):
-        nm = strip_targs(t or '').replace('const ', '').strip().split('::')[-1]
+        nm = strip_targs(t or '').replace('const ', '').replace('struct ', '').strip().split('::')[-1]
         if not nm or not nm[0].isalpha():
             return None
+        if nm in ('tm', 'timeval', 'timespec', 'stat', 'pollfd', 'iovec'):
+            return 'struct'
         if not hasattr(self, '_records'):
             self._records = {}
             for u in self.units:
@@ -451,9 +462,9 @@ class PEval:
                     return 1 if v is not None else 0
                 return self.wrap(v, t) if isinstance(v, int) else (1 if self.truth(v) else 0) if ck == 'IntegralToBoolean' else v
             if ck == 'IntegralToFloating':
-                return float(v) if isinstance(v, int) else v
+                return (_f32(float(v)) if t == 'float' else float(v)) if isinstance(v, int) else v
             if ck == 'FloatingCast':
-                return v
+                return _f32(v) if t == 'float' and isinstance(v, float) else v
             if ck == 'FloatingToBoolean':
                 return 1 if v != 0.0 else 0
             if ck == 'FloatingToIntegral':
@@ -633,6 +644,14 @@ class PEval:
                 a, b = vals
                 if isinstance(a, Lit) and isinstance(b, int):
                     return Str(bytes(a.data[a.off:a.off + b]))
+                if isinstance(a, Str) and isinstance(b, int):
+                    if '*' in (qtype(strip(args[0])) or '') or '[' in (qtype(strip(args[0])) or '') or getattr(a, 'fixed', False):
+                        if b > len(a.b):
+                            raise Fault('string(ptr, %d) reads past a %d-byte buffer' % (b, len(a.b)))
+                        return Str(a.b[:b])
+                    if b > len(a.b):
+                        raise Thrown(n, 'std::out_of_range from string(str, pos)')
+                    return Str(a.b[b:])
                 if isinstance(a, int) and isinstance(b, int):
                     return Str(bytes([b & 0xFF]) * a)
                 if isinstance(a, tuple) and a[0] == 'iter' and isinstance(b, tuple) and b[0] == 'iter':
@@ -751,7 +770,8 @@ class PEval:
                 if op == '/' and fb == 0.0:
                     raise Undecided('floating division by zero')
                 if op in ('+', '-', '*', '/'):
-                    return {'+': fa + fb, '-': fa - fb, '*': fa * fb, '/': fa / fb if fb else 0.0}[op]
+                    r_ = {'+': fa + fb, '-': fa - fb, '*': fa * fb, '/': fa / fb if fb else 0.0}[op]
+                    return _f32(r_) if t == 'float' else r_
             raise Undecided('floating operator %s' % op)
         if not isinstance(a, int) or not isinstance(b, int):
             raise Undecided('operator %s on non-constants' % op)
@@ -1056,6 +1076,75 @@ class PEval:
                 st.pos = end
                 buf.b[off:off + len(chunk) + 1] = chunk + b'\0'
                 return ('bufptr', buf, off)
+        if name in ('gmtime_r',) and len(args) == 2:
+            tp = self.ev(args[0], env, depth)
+            tmr = self.ev(args[1], env, depth)
+            tv = self.lookup(tp.env, tp.key) if isinstance(tp, Ref) else None
+            tm = self.lookup(tmr.env, tmr.key) if isinstance(tmr, Ref) else None
+            if isinstance(tv, int) and isinstance(tm, Rec):
+                # civil-from-days (proleptic Gregorian), independent of the code under analysis
+                days, rem = divmod(tv, 86400)
+                z = days + 719468
+                era = z // 146097
+                doe = z - era * 146097
+                yoe = (doe - doe // 1460 + doe // 36524 - doe // 146096) // 365
+                y = yoe + era * 400
+                doy = doe - (365 * yoe + yoe // 4 - yoe // 100)
+                mp = (5 * doy + 2) // 153
+                d = doy - (153 * mp + 2) // 5 + 1
+                m = mp + 3 if mp < 10 else mp - 9
+                y = y + 1 if m <= 2 else y
+                leap = (y % 4 == 0 and y % 100 != 0) or y % 400 == 0
+                yday = sum([31, 29 if leap else 28, 31, 30, 31, 30, 31, 31, 30, 31, 30, 31][:m - 1]) + d - 1
+                tm.f.update({'tm_sec': rem % 60, 'tm_min': (rem // 60) % 60, 'tm_hour': rem // 3600, 'tm_mday': d, 'tm_mon': m - 1, 'tm_year': y - 1900,
+                             'tm_wday': (days + 4) % 7, 'tm_yday': yday, 'tm_isdst': 0})
+                return tmr
+        if name == 'strftime' and len(args) == 4:
+            tgt = self.buf_target(args[0], env, depth)
+            cap = self.ev(args[1], env, depth)
+            fmt = self.ev(args[2], env, depth)
+            tmr = self.ev(args[3], env, depth)
+            tm = self.lookup(tmr.env, tmr.key) if isinstance(tmr, Ref) else None
+            if tgt is not None and isinstance(cap, int) and isinstance(fmt, Lit) and isinstance(tm, Rec) and 'tm_year' in tm.f:
+                f = tm.f
+                conv = {b'Y': '%d' % (f['tm_year'] + 1900), b'm': '%02d' % (f['tm_mon'] + 1), b'd': '%02d' % f['tm_mday'], b'H': '%02d' % f['tm_hour'],
+                        b'M': '%02d' % f['tm_min'], b'S': '%02d' % f['tm_sec'], b'j': '%03d' % (f['tm_yday'] + 1), b'y': '%02d' % ((f['tm_year'] + 1900) % 100), b'%': '%'}
+                conv[b'F'] = '%s-%s-%s' % (conv[b'Y'], conv[b'm'], conv[b'd'])
+                conv[b'T'] = '%s:%s:%s' % (conv[b'H'], conv[b'M'], conv[b'S'])
+                out = bytearray()
+                raw = fmt.cstr()
+                i_ = 0
+                while i_ < len(raw):
+                    if raw[i_:i_ + 1] == b'%' and i_ + 1 < len(raw):
+                        c_ = raw[i_ + 1:i_ + 2]
+                        if c_ not in conv:
+                            raise Undecided('strftime conversion %%%s' % c_.decode('latin1'))
+                        out += conv[c_].encode()
+                        i_ += 2
+                    else:
+                        out += raw[i_:i_ + 1]
+                        i_ += 1
+                buf, off = tgt
+                if off + cap > len(buf.b):
+                    raise Fault('strftime may store %d bytes at offset %d of a %d-byte buffer' % (cap, off, len(buf.b)))
+                if len(out) + 1 > cap:
+                    return 0
+                buf.b[off:off + len(out) + 1] = bytes(out) + b'\0'
+                return len(out)
+        if name == 'snprintf' and len(args) >= 3:
+            tgt = self.buf_target(args[0], env, depth)
+            cap = self.ev(args[1], env, depth)
+            fmt = self.ev(args[2], env, depth)
+            if tgt is not None and isinstance(cap, int) and isinstance(fmt, Lit):
+                vals = [self.ev(a, env, depth) for a in args[3:]]
+                out = c_printf(fmt.cstr(), vals)
+                buf, off = tgt
+                if off + cap > len(buf.b):
+                    raise Fault('snprintf may store %d bytes at offset %d of a %d-byte buffer' % (cap, off, len(buf.b)))
+                if cap > 0:
+                    w_ = out[:cap - 1] + b'\0'
+                    buf.b[off:off + len(w_)] = w_
+                return len(out)
         if name == '__errno_location' and not args:
             if not hasattr(self, 'genv'):
                 self.genv = {'errno': 0}
@@ -1303,7 +1392,7 @@ class PEval:
         if name == 'at':
             if 0 <= vals[0] < len(s.b):
                 return self.wrap(s.b[vals[0]], dtype(n))
-            raise Undecided('at() out of range')
+            raise Thrown(n, 'std::out_of_range from at(%r) on a string of %d characters' % (vals[0], len(s.b)))
         if name in ('data', 'c_str'):
             return Lit(bytes(s.b) + b'\0')
         if name in ('begin', 'cbegin'):
@@ -1313,6 +1402,25 @@ class PEval:
         if name == 'pop_back':
             s.b = s.b[:-1]
             return None
+        if name == 'insert' and len(vals) in (2, 3) and isinstance(vals[0], int):
+            pos = vals[0]
+            if pos > len(s.b):
+                raise Thrown(n, 'std::out_of_range from insert')
+            if len(vals) == 3 and isinstance(vals[1], int) and isinstance(vals[2], int):
+                ins = bytes([vals[2] & 0xFF]) * vals[1]
+            elif len(vals) == 2 and isinstance(vals[1], (Str, Lit)):
+                ins = bytes(vals[1].b) if isinstance(vals[1], Str) else vals[1].cstr()
+            else:
+                raise Undecided('std::string::insert form')
+            s.b[pos:pos] = ins
+            return s
+        if name == 'erase' and len(vals) in (1, 2) and all(isinstance(v_, int) for v_ in vals):
+            pos = vals[0]
+            if pos > len(s.b):
+                raise Thrown(n, 'std::out_of_range from erase')
+            cnt = vals[1] if len(vals) == 2 else len(s.b)
+            del s.b[pos:pos + cnt]
+            return s
         if name == 'substr':
             pos = vals[0] if vals else 0
             cnt = vals[1] if len(vals) > 1 else None
